@@ -50,7 +50,7 @@ def main():
             if c.returncode:
                 print(f"MUTANT {m['name']}: does not compile")
                 continue
-            env = dict(os.environ, VERIF_REPO=wt, VERIF_SCALE=scale, VERIF_NO_SHRINK="1")
+            env = dict(os.environ, VERIF_REPO=wt, VERIF_SCALE=scale, VERIF_NO_SHRINK="1", VERIF_NO_EVIDENCE="1")
             cmd = [os.path.join(V, "check"), pid, tier]
             if m.get("only"):
                 cmd += ["--only", m["only"]]
